@@ -46,6 +46,10 @@ ASSUMPTIONS = [
     "raises AssertionError: mirrored by the model, not generated)",
     "bytes go missing only by deleting the whole store file / FileCache file of one value (no partial or altered files)",
     "single process, no concurrent recorder (the IntegrityError branch of record_value is not exercised)",
+    "the oracle demands of a re-record after deleted bytes: a call that offloads (store configured, getsizeof >= min) "
+    "restores the store object, any call restores the FileCache file — then the value must read back (rerecord_heals); at "
+    "workflow level (real Scheduler, value store, thread executor): run, run, delete all store objects, run, run, run must "
+    "execute the task 1,0,1,0,0 times with the same result",
 ]
 RULE = ("histories (6-14 ops) of record / get / delete store file / delete FileCache file / attach store over 3-4 values per "
         "case, thresholds chosen at len(data)+33 -1/0/+1, 0, 100, huge (min) and len(data) -1/0/+1, small, default (max); "
@@ -129,6 +133,9 @@ def gen_case(rng, nops, datalen):
             ops.append(("get", i))
         elif k < 0.86:
             ops.append(("dropstore", i))
+            if rng.random() < 0.5:
+                ops.append(("record", i, rng.choice([0, 0, n + 33, 10 ** 9]), 10 ** 9))
+                ops.append(("get", i))
         elif k < 0.93:
             blobs = [j for j, v in enumerate(vals) if v[0] == "blob"]
             ops.append(("dropfc", rng.choice(blobs)) if blobs else ("get", i))
@@ -301,6 +308,8 @@ def run_case(ctx, real, case, replies, n_pre, per_op, label):
     it = iter(replies[n_pre:])
     recorded = {}          # digest -> value spec (what a successful read must return)
     dropped = set()        # digests whose offloaded bytes / FileCache file the harness deleted and nothing restored
+    lost_store = set()     # ... of these: the value-store object was deleted (restored by a record call that offloads)
+    lost_fc = set()        # ... of these: the FileCache file was deleted (restored by any record call: serialize() rewrites it)
     diverged = False
     for n, op in enumerate(case["ops"]):
         k = op[0]
@@ -322,9 +331,22 @@ def run_case(ctx, real, case, replies, n_pre, per_op, label):
                                   case=jcase, expected=dg, actual=h, kind="history")
                 already = dg in recorded
                 recorded[dg] = v
+                # what this call must have repaired: the FileCache file always (serialize() writes it), the value-store
+                # object when this call offloads (store configured and getsizeof(data) >= min)
+                lost_fc.discard(dg)
+                if b.value_store is not None and ndata + 33 >= op[2]:
+                    lost_store.discard(dg)
+                repaired = dg in dropped and dg not in lost_store and dg not in lost_fc
+                if repaired:
+                    dropped.discard(dg)
                 # read back
                 try:
                     got, ok = b.get_value(h)
+                    if not ok and repaired:
+                        ctx.violation("C31-rerecord-does-not-restore-missing-bytes", "the offloaded bytes of a value had been "
+                                      "deleted; recording the value again (with a configuration that offloads) returned its hash "
+                                      "but get_value still reads it as absent", case=jcase, expected=repr(v), actual="absent",
+                                      kind="history")
                     if ok:
                         if real.pickle_dumps(got) != real.payload(v):
                             ctx.violation("C31-readback-differs", "get_value(record_value(v)) is a different value", case=jcase,
@@ -380,6 +402,7 @@ def run_case(ctx, real, case, replies, n_pre, per_op, label):
                 rows = [r for r in b.session.query(real.ValueRow).filter_by(value_hash=dg).all()]
                 if rows and len(rows[0].value) == 0:
                     dropped.add(dg)
+                    lost_store.add(dg)
             out = "ok"
         elif k == "dropfc":
             v = vals[op[1]]
@@ -387,6 +410,7 @@ def run_case(ctx, real, case, replies, n_pre, per_op, label):
             if os.path.exists(p):
                 os.remove(p)
                 dropped.add(real.digest(v))
+                lost_fc.add(real.digest(v))
             out = "ok"
         elif k == "attach":
             if b.value_store is None:
@@ -428,6 +452,56 @@ def run_cases(ctx, real, cases):
         run_case(ctx, real, case, replies[a:bnd], n_pre, per_op, label)
 
 
+def workflow_oracle(ctx, values):
+    """Workflow level, on the real scheduler: a task whose cached result (offloaded to the value store) lost its bytes
+    re-executes exactly once and is then served from the cache again.  Compares execution counts only."""
+    from redun import Scheduler, task
+    from redun.backends.db import RedunBackendDb
+    from redun.backends.value_store import ValueStore
+    root = os.path.realpath(tempfile.mkdtemp(prefix="verif-gJ-c31wf-"))
+    count = [0]
+    if _S.get("wf_task") is None:
+        def produce(i: int, payload):
+            _S["wf_count"][0] += 1
+            return [payload, i]
+        _S["wf_task"] = task(namespace="verif_gj_c31", name="produce")(produce)
+    _S["wf_count"] = count
+    produce = _S["wf_task"]
+    try:
+        for i, payload in enumerate(values):
+            for min_size in (0, 64):
+                vs = os.path.join(root, "vs-%d-%d" % (i, min_size))
+                backend = RedunBackendDb(db_uri="sqlite:///:memory:")
+                sched = Scheduler(backend=backend)
+                sched.load()
+                backend.value_store = ValueStore(vs)
+                backend.value_store_min_size = min_size
+                counts, results, err = [], [], None
+                try:
+                    for step in range(5):
+                        if step == 2:
+                            n_files = sum(len(f) for _, _, f in os.walk(vs))
+                            shutil.rmtree(vs, ignore_errors=True)        # every offloaded byte is gone
+                        before = count[0]
+                        results.append(sched.run(produce(i, payload)))
+                        counts.append(count[0] - before)
+                except Exception as e:  # noqa: BLE001
+                    err = e
+                case = {"workflow": "produce(%d, %r)" % (i, payload), "value_store_min_size": min_size,
+                        "steps": "run, run, delete every value-store object, run, run, run", "offloaded_objects_deleted": n_files if len(counts) >= 2 else None}
+                want = [1, 0, 1 if n_files else 0, 0, 0] if err is None or len(counts) >= 2 else None
+                ctx.case(key=("workflow", i, min_size), sample=None, workflow="lost-bytes-reexecute")
+                if err is not None:
+                    ctx.violation("C31-workflow-raises-after-lost-bytes", "scheduler.run raised %s" % type(err).__name__, case=case,
+                                  expected=want, actual=counts, kind="history")
+                elif counts != want or any(r != [payload, i] for r in results):
+                    ctx.violation("C31-lost-bytes-result-not-recached", "executions per run after the cached result lost its "
+                                  "offloaded bytes (expected: re-execute once, then cached again) or a wrong result", case=case,
+                                  expected=want, actual=counts, kind="history")
+    finally:
+        shutil.rmtree(root, ignore_errors=True)
+
+
 def run(ctx):
     import redun.logging  # noqa: F401  (sets the level at import; silence it afterwards)
     logging.getLogger("redun").setLevel(logging.CRITICAL)
@@ -443,10 +517,16 @@ def run(ctx):
         run_cases(ctx, real, cases)
     finally:
         real.close()
+    workflow_oracle(ctx, [b"x" * 200, "y" * 300, list(range(60))])
 
 
 def replay(ctx, case):
     c = case.get("case") or {}
+    if isinstance(c, dict) and "workflow" in c:
+        import redun.logging  # noqa: F401
+        logging.getLogger("redun").setLevel(logging.CRITICAL)
+        print("replay: workflow", c)
+        return workflow_oracle(ctx, [b"x" * 200, "y" * 300, list(range(60))])
     if not isinstance(c, dict) or "ops" not in c:
         ctx.note("replay file has no history; running the normal check")
         return run(ctx)
